@@ -172,6 +172,8 @@ type worker struct {
 	permute    int // 0 off, 1 every map iteration permuted (product), 2 exactly one iteration permuted (sum)
 	permDone   bool
 	permUsed   bool
+	schedAll   bool   // every scheduling choice at channel operations is a decision
+	schedEager bool   // deterministic policy: yield to another goroutine at every channel operation
 	cur        *frame // innermost interpreted frame (diagnostics)
 	decoderResults map[string]value
 	files          map[string]value
@@ -504,6 +506,9 @@ func (w *worker) runPath(prefix []int64) {
 	w.resetPath(prefix)
 	w.solver.BeginPath()
 	w.ip.sched = newSched()
+	w.ip.sched.w = w
+	w.schedAll = false
+	w.schedEager = false
 	completed := false
 	func() {
 		defer func() {
